@@ -52,7 +52,8 @@ def _base_op(g, prog, st, verif_seed, index):
     if prog == "gen_params":
         ff = ffgen.gen_ff(g)
         rg = ffgen.gen_resgraph(g, ff, maxn=6)
-        op = histgen.make_op(ff, rg, g, out="res/out.itp")
+        # (some output names have no extension: the file has to appear under exactly the name that was asked for)
+        op = histgen.make_op(ff, rg, g, out=g.choice(["res/out.itp", "res/out.itp", "res/polymer", "res/PEO_1.5k"]))
         op["stop_at"] = ["file_writer.py", "write"]
         return op
     if prog == "gen_seq":
